@@ -203,6 +203,38 @@ def run(ck: Check) -> None:
                 and open(name + ".pri", "rb").read() == P.to_bytes(priv) and open(name + ".pub", "rb").read() == Pub.to_bytes(pub)):
             ck.violation("keys written to key files do not load back as equivalent keys", {"name": name}, "keyfiles")
         written[name] = Pub.to_bytes(pub)
+    # key files that hold anything but exactly 32 bytes (a good key followed by a newline or by a second key, a hex-encoded key, a truncated file) are
+    # refused when loaded as keys (theorem keyfiles_reject_length), and read back byte for byte by the raw reader
+    good_priv, good_pub = gen.key(3).seed, gen.key(3).pub
+    for which in ("pri", "pub", "both"):
+        for label, mk in [("newline", lambda b: b + b"\n"), ("crlf", lambda b: b + b"\r\n"), ("two-keys", lambda b: b + b), ("hex", lambda b: b.hex().encode()), ("hex-newline", lambda b: b.hex().encode() + b"\n"),
+                          ("short-31", lambda b: b[:31]), ("empty", lambda b: b""), ("nul-padded", lambda b: b + b"\x00"), ("long-96", lambda b: b + os.urandom(64)), ("leading-space", lambda b: b" " + b)]:
+            name = os.path.join(d, "lenkey")
+            contents = {"pri": mk(good_priv) if which in ("pri", "both") else good_priv, "pub": mk(good_pub) if which in ("pub", "both") else good_pub}
+            for ext, c in contents.items():
+                with open(name + "." + ext, "wb") as f:
+                    f.write(c)
+            ck.evaluations += 1
+            ck.oracle_checks += 1
+            ck.count("keyfiles:wrong-length")
+            try:
+                got = impl.common.keyfiles_to_keys(name)
+                outcome = "accepted"
+            except (TypeError, ValueError):
+                outcome = "refused"
+            except Exception as e:  # noqa: BLE001
+                outcome = "raised " + type(e).__name__
+            if outcome != "refused":
+                ck.violation("a key file that does not hold exactly 32 bytes was not refused with an argument error when loaded as a key (a longer file was truncated, or a shorter one padded)",
+                             {"file": which, "content": label, "lengths": {k: len(v) for k, v in contents.items()}, "outcome": outcome}, f"keyfiles-wrong-length:{outcome}:{label}")
+            try:
+                raw = impl.common.keyfiles_to_bytes(name)
+                if tuple(raw) != (contents["pri"], contents["pub"]):
+                    ck.violation("keyfiles_to_bytes does not return the files' contents", {"file": which, "content": label, "returned_lengths": [len(x) for x in raw]}, f"keyfiles-bytes-differ:{label}")
+            except (TypeError, ValueError):
+                pass        # refusing a wrong-length file already at this level is as good
+            except Exception as e:  # noqa: BLE001
+                ck.violation("keyfiles_to_bytes failed with something other than an argument error on readable files", {"error": repr(e)[:200]}, "keyfiles-bytes-raised")
     # key pairs written under different names do not disturb each other
     for name, pb in written.items():
         ck.oracle_checks += 1
